@@ -172,13 +172,12 @@ void run_InsertBag(Case& c) {
   static_assert(sizeof(Tracked) == 8 && sizeof(Pod) == 8, "block capacities below assume 8-byte elements");
   unsigned cap  = c.rng.pick({1u, 2u, 2u, 3u, 3u, 4u, 4u, 64u, 0u});
   bool tracked  = c.rng.below(3) != 0;
-  bool pops     = c.rng.below(2) == 0;
+  bool pops     = c.rng.below(4) != 0;
   unsigned nops = c.pickOps();
   std::string cfg = "cap" + std::to_string(cap) + (tracked ? "|tracked" : "|pod") + (pops ? "|pop" : "");
   if (!c.begin("InsertBag", cfg,
           J().kv("block_capacity", cap ? std::to_string(cap) : std::string("page"))
-              .kv("elem", tracked ? "tracked" : "pod").kv("pop_enabled", pops).kv("nops", nops),
-               pops ? "pop" : ""))
+              .kv("elem", tracked ? "tracked" : "pod").kv("pop_enabled", pops).kv("nops", nops)))
     return;
   unsigned capForStats = cap ? cap : 1u << 30;
   (void)capForStats;
